@@ -85,7 +85,7 @@ fn check_accepted(prop: &str, name: &str, pt: Option<u8>, min: usize, unit: usiz
     Ok(())
 }
 
-fn c08_oracle(c: &Bytes, st: &mut Stats) -> Verdict {
+pub(crate) fn c08_oracle(c: &Bytes, st: &mut Stats) -> Verdict {
     let b = &c.0[..];
     let mut accepted = false;
     for (k, (name, pt, min, unit, fixed)) in TYPED.iter().enumerate() {
@@ -251,7 +251,7 @@ fn variant_name(e: &RtcpParseError) -> String {
     s.split(|c: char| !c.is_alphanumeric()).next().unwrap_or("").to_string()
 }
 
-fn c18_oracle(c: &Bytes, st: &mut Stats) -> Verdict {
+pub(crate) fn c18_oracle(c: &Bytes, st: &mut Stats) -> Verdict {
     let b = &c.0[..];
     let mut any_err = false;
     let note = |st: &mut Stats, who: &str, e: &RtcpParseError| {
@@ -387,3 +387,5 @@ pub fn c18(tier: Tier) -> Check {
         ],
     }
 }
+
+
